@@ -58,6 +58,25 @@ def parse_verdict(text):
     return (len(col.errors) == 0), col.errors, tree, stream
 
 
+def parse_verdict_fresh(text):
+    """parse_verdict with the parser in the state of a fresh process: the generated module keeps its automaton, prediction caches
+    and the error handler's follow-set caches in class attributes, so what an earlier parse left there can hide (or cause) an error.
+    A second copy of the generated module is executed from its source file for this one parse."""
+    import importlib.util
+    import blackbird.blackbirdParser as mod
+    spec = importlib.util.spec_from_file_location("blackbird._fresh_blackbirdParser", mod.__file__)
+    fresh = importlib.util.module_from_spec(spec)
+    spec.loader.exec_module(fresh)
+    lx = blackbirdLexer(antlr4.InputStream(text))
+    lx.removeErrorListeners()
+    p = fresh.blackbirdParser(antlr4.CommonTokenStream(lx))
+    p.removeErrorListeners()
+    col = _Collect()
+    p.addErrorListener(col)
+    p.start()
+    return (len(col.errors) == 0), col.errors
+
+
 def reset_tables():
     """isolate single-load observations from the process-wide tables (C12 has its own check)"""
     _aux._VAR.clear()
